@@ -134,6 +134,18 @@ def check_c20(tier: str, seed: int) -> int:
             import re
             run.violation(f"{sorted(v['c20'])[0]}|{re.sub(r'[0-9]+', 'N', o.get('msg') or '')[:60]}", sorted(v["c20"])[0],
                           {"input": c["text"], "generator": c["key"], "rebuild": o})
+    # ... and on every VALID program of Gen.tla: a round trip of valid input must not raise an internal error either
+    from . import layout
+    gcases, _ = layout.make_cases(layout.gen_programs("quick" if tier == "quick" else "thorough", seed, run), seed)
+    layout.execute(gcases)
+    import re as _re
+    for g in gcases:
+        run.case(g["text"], nontrivial=True)
+        f = g["r"].get("fail") or g["r"].get("fail2")
+        if f and not ({"ValueError", "SyntaxError"} & set(f["mro"])):
+            run.violation(f"C20_DocumentedErrors:{f['exc']}|valid_program|{_re.sub(r'[0-9]+', 'N', f.get('msg') or '')[:60]}",
+                          "C20_DocumentedErrors", {"input": g["text"], "generator": g["key"], "exception": f})
+    run.coverage["valid_programs_round_tripped"] = len(gcases)
     # (ii) complexity: the model separates polynomial from exponential; the real renderer-call counts are judged by TLC
     res = tlc.must_ok(tlc.run("Work", "Work_model.cfg", workers=4, timeout=1800), "Work model")
     run.add_model(res, "Work/Work_model.cfg (TestSeparates)")
